@@ -103,6 +103,13 @@ func init() {
 		p.InitVals = 0.3
 		p.BadDecl = 0.01
 	}, oracleNoPanic)
+	{
+		base := props["C01"]
+		props["C01"] = propRun{rule: base.rule + "; denotation stage: command lines made only of occurrences of declared options (all spellings, clusters, after command words, values with '=', ':', leading dashes, quotes, blanks), whose meaning (last value / every value in order / last value per key / flag true / untouched otherwise) is computed independently and compared with the fields after a successful parse", run: func(c *Ctx) {
+			base.run(c)
+			checkC01Denote(c, budget(c.Tier, 1500, 60000))
+		}}
+	}
 	parseProp("C03", caseRule+"emphasis: pass-through options, terminators, weird tokens", 2500, 100000, func(p *Profile) {
 		p.ArgvLen = 9
 		p.Unknown = 0.15
